@@ -48,10 +48,11 @@ class Expr:
     __array_priority__ = 10000
     __array_ufunc__ = None
 
-    def __init__(self, fn, shape, leaves=()):
+    def __init__(self, fn, shape, leaves=(), doms=()):
         self.fn = fn
         self.shape = tuple(shape)
         self.leaves = tuple(dict.fromkeys(leaves))
+        self.doms = tuple(dict.fromkeys(doms))  # expressions that must be > 0 (domain of log)
 
     def ev(self):
         return self.fn()
@@ -68,7 +69,7 @@ class Expr:
         o = _arr(o)
         a, b = (o, self) if rev else (self, o)
         shp = np.broadcast_shapes(a.shape, b.shape)
-        return Expr(lambda: f(_obj(a.ev()), _obj(b.ev())), shp, a.leaves + b.leaves)
+        return Expr(lambda: f(_obj(a.ev()), _obj(b.ev())), shp, a.leaves + b.leaves, a.doms + b.doms)
 
     def __add__(s, o): return s._bin(o, lambda a, b: a + b)
     def __radd__(s, o): return s._bin(o, lambda a, b: a + b, rev=True)
@@ -78,26 +79,26 @@ class Expr:
     def __rmul__(s, o): return s._bin(o, lambda a, b: a * b, rev=True)
     def __truediv__(s, o): return s._bin(o, lambda a, b: a / b)
     def __rtruediv__(s, o): return s._bin(o, lambda a, b: a / b, rev=True)
-    def __neg__(s): return Expr(lambda: -_obj(s.ev()), s.shape, s.leaves)
+    def __neg__(s): return Expr(lambda: -_obj(s.ev()), s.shape, s.leaves, s.doms)
 
     def __pow__(s, p):
-        return Expr(lambda: _obj(s.ev()) ** p, s.shape, s.leaves)
+        return Expr(lambda: _obj(s.ev()) ** p, s.shape, s.leaves, s.doms)
 
     def __matmul__(s, o):
         o = _arr(o)
         shp = _shape_of(lambda a, b: a @ b, s.shape, o.shape)
-        return Expr(lambda: wrap(symnp._matmul(_obj(s.ev()), _obj(o.ev()))), shp, s.leaves + o.leaves)
+        return Expr(lambda: wrap(symnp._matmul(_obj(s.ev()), _obj(o.ev()))), shp, s.leaves + o.leaves, s.doms + o.doms)
 
     def __rmatmul__(s, o):
         o = _arr(o)
         shp = _shape_of(lambda a, b: a @ b, o.shape, s.shape)
-        return Expr(lambda: wrap(symnp._matmul(_obj(o.ev()), _obj(s.ev()))), shp, o.leaves + s.leaves)
+        return Expr(lambda: wrap(symnp._matmul(_obj(o.ev()), _obj(s.ev()))), shp, o.leaves + s.leaves, o.doms + s.doms)
 
     def __getitem__(s, idx):
         if isinstance(idx, np.ndarray) and idx.dtype == object:
             idx = symnp.concretize_mask(idx)
         shp = np.zeros(s.shape)[idx].shape
-        return Expr(lambda: np.asarray(_obj(s.ev()))[idx], shp, s.leaves)
+        return Expr(lambda: np.asarray(_obj(s.ev()))[idx], shp, s.leaves, s.doms)
 
     def __le__(s, o): return Constraint(s, _arr(o), "<=")
     def __ge__(s, o): return Constraint(s, _arr(o), ">=")
@@ -106,7 +107,7 @@ class Expr:
 
     @property
     def T(s):
-        return Expr(lambda: np.asarray(_obj(s.ev())).T, s.shape[::-1], s.leaves)
+        return Expr(lambda: np.asarray(_obj(s.ev())).T, s.shape[::-1], s.leaves, s.doms)
 
     @property
     def value(s):
@@ -177,6 +178,7 @@ class Constraint:
     def __init__(self, l, r, op):
         self.l, self.r, self.op = l, r, op
         self.leaves = tuple(dict.fromkeys(l.leaves + r.leaves))
+        self.doms = tuple(dict.fromkeys(l.doms + r.doms))
 
     def formula(self):
         a, b = np.broadcast_arrays(np.asarray(_obj(self.l.ev()), dtype=object), np.asarray(_obj(self.r.ev()), dtype=object))
@@ -193,7 +195,7 @@ class Constraint:
 def _un(a, f, shape_f=None):
     a = _arr(a)
     shp = _shape_of(shape_f, a.shape) if shape_f else a.shape
-    return Expr(lambda: f(_obj(a.ev())), shp, a.leaves)
+    return Expr(lambda: f(_obj(a.ev())), shp, a.leaves, a.doms)
 
 
 def multiply(a, b):
@@ -240,8 +242,12 @@ def _slog(v):
 
 
 def log(a):
-    """natural logarithm as an uninterpreted function (no property of ln is assumed)"""
-    return _un(a, lambda v: wrap(np.frompyfunc(_slog, 1, 1)(np.asarray(v, dtype=object))))
+    """natural logarithm as an uninterpreted function (no property of ln is assumed); cvxpy adds the domain
+    constraint argument > 0, which is modelled (Problem.at collects it)"""
+    a = _arr(a)
+    r = _un(a, lambda v: wrap(np.frompyfunc(_slog, 1, 1)(np.asarray(v, dtype=object))))
+    r.doms = tuple(dict.fromkeys(a.doms + (a,)))
+    return r
 
 
 def norm(a, p=2, axis=None):
@@ -273,7 +279,7 @@ def reshape(a, shape, order=None):
         shape = (int(shape),)
     shape = tuple(int(i) for i in shape)
     od = "F" if order is None else order  # cvxpy 1.x default is Fortran order (it warns about it)
-    return Expr(lambda: np.reshape(np.asarray(_obj(a.ev())), shape, order=od), np.reshape(np.zeros(a.shape), shape, order=od).shape, a.leaves)
+    return Expr(lambda: np.reshape(np.asarray(_obj(a.ev())), shape, order=od), np.reshape(np.zeros(a.shape), shape, order=od).shape, a.leaves, a.doms)
 
 
 def diff(a, k=1, axis=0):
@@ -359,6 +365,11 @@ class Problem:
                 obj = S(lift(obj))
             obj = obj * self.objective.sign
             cons = [c.formula() for c in self.constraints]
+            doms = list(self.objective.e.doms)
+            for c in self.constraints:
+                doms += list(c.doms)
+            for d in dict.fromkeys(doms):
+                cons += [lift(x) > 0 for x in np.asarray(_obj(d.ev()), dtype=object).ravel()]
             for v in self.variables():
                 if v.pos or v.nonneg:
                     cons += [lift(x) >= 0 for x in np.asarray(v._value).ravel()]
